@@ -11,8 +11,10 @@ import (
 	"bytes"
 	"encoding/json"
 	"fmt"
+	"math/big"
 	"math/rand"
 	"reflect"
+	"strconv"
 	"strings"
 	"unicode"
 )
@@ -170,6 +172,67 @@ func roundTrip(v any) any {
 		panic(err)
 	}
 	return out
+}
+
+// roundTripNum is roundTrip with numbers kept as written (json.Number): an integer beyond 2^53 survives.
+func roundTripNum(v any) any {
+	b, err := json.Marshal(v)
+	if err != nil {
+		panic(err)
+	}
+	d := json.NewDecoder(bytes.NewReader(b))
+	d.UseNumber()
+	var out any
+	if err := d.Decode(&out); err != nil {
+		panic(err)
+	}
+	return out
+}
+
+// jsonNumEqual: JSON equality with numbers compared by VALUE, exactly (1.0 = 1 = 1e0, but
+// 9007199254740993 # 9007199254740992).
+func jsonNumEqual(a, b any) bool {
+	rat := func(v any) (*big.Rat, bool) {
+		switch x := v.(type) {
+		case json.Number:
+			r, ok := new(big.Rat).SetString(x.String())
+			return r, ok
+		case float64:
+			r, ok := new(big.Rat).SetString(strconv.FormatFloat(x, 'g', -1, 64))
+			return r, ok
+		}
+		return nil, false
+	}
+	if ra, ok := rat(a); ok {
+		rb, ok2 := rat(b)
+		return ok2 && ra.Cmp(rb) == 0
+	}
+	switch x := a.(type) {
+	case map[string]any:
+		y, ok := b.(map[string]any)
+		if !ok || len(x) != len(y) {
+			return false
+		}
+		for k, v := range x {
+			w, ok := y[k]
+			if !ok || !jsonNumEqual(v, w) {
+				return false
+			}
+		}
+		return true
+	case []any:
+		y, ok := b.([]any)
+		if !ok || len(x) != len(y) {
+			return false
+		}
+		for i := range x {
+			if !jsonNumEqual(x[i], y[i]) {
+				return false
+			}
+		}
+		return true
+	}
+	return reflect.DeepEqual(a, b)
 }
 
 // ordered JSON object writer (key order is shuffled: it must not matter)
@@ -388,7 +451,12 @@ func Concretise(q Req, r *rand.Rand, model string) *Concrete {
 				if b.C == "obj" {
 					o := randObject(r, 3, 1+r.Intn(4))
 					o["_tok"] = float64(tok) // makes every non-empty argument object distinct
-					in = roundTrip(o)
+					if r.Intn(3) == 0 {
+						// integers no float64 holds: "JSON-equal arguments" means these digits, not the nearest double
+						o["_big"] = json.Number("9007199254740993")
+						o["_ns"] = []any{json.Number("1727500000123456789"), json.Number("-9223372036854775807")}
+					}
+					in = roundTripNum(o)
 					c.Args[tok] = in
 				}
 				blocks = append(blocks, obj(r, true, cc([]kv{{"type", "tool_use"}, {"id", c.IDs[b.I]}, {"name", c.Names[b.I]}, {"input", in}})...))
@@ -580,12 +648,14 @@ func (c *Concrete) argsToken(v any) int {
 	if !ok {
 		return -1
 	}
+	d := json.NewDecoder(strings.NewReader(s))
+	d.UseNumber()
 	var parsed any
-	if err := json.Unmarshal([]byte(s), &parsed); err != nil {
+	if err := d.Decode(&parsed); err != nil {
 		return -1
 	}
 	for tok, a := range c.Args {
-		if reflect.DeepEqual(parsed, a) {
+		if jsonNumEqual(parsed, a) {
 			return tok
 		}
 	}
